@@ -203,7 +203,8 @@ class Recorder:
         if self.machinery_errors:
             for e in self.machinery_errors[:5]:
                 print("MACHINERY-ERROR %s" % e)
-            return 2
+            # a violation that was observed and recorded stands on its own; an unrelated engine error does not erase it
+            return 1 if new else 2
         if not ok_schema:
             print("MACHINERY-ERROR evidence file does not validate against the schema")
             return 2
